@@ -12,7 +12,10 @@ import (
 	"github.com/go-openapi/spec"
 )
 
-var c15Pats = []string{"^a", "b$", "c+", "("}
+// the last three: an expression that does not compile whose offending fragment ("z-a") is itself a
+// valid expression, that fragment, and a second one of the kind ("[[:alphanum:]]" / "[:alphanum:]")
+var c15Pats = []string{"^a", "b$", "c+", "(", "^[z-a]+$", "z-a", "[[:alphanum:]]", "[:alphanum:]"}
+var c15Valid = []bool{true, true, true, false, false, true, false, true}
 
 func c15Use(p string) (ok bool, src string) {
 	r, err := compileRegexp(p)
@@ -24,10 +27,10 @@ func c15Use(p string) (ok bool, src string) {
 
 // HarnessC15Sequential: histories of 4 calls in one goroutine.
 func HarnessC15Sequential() {
-	for step := 0; step < 4; step++ {
-		i := verifChoose(4)
+	for step := 0; step < 3+verifTier(); step++ {
+		i := verifChoose(len(c15Pats))
 		ok, src := c15Use(c15Pats[i])
-		verifAssert(ok == (i != 3), "invalid-pattern-reported-valid-compiled")
+		verifAssert(ok == c15Valid[i], "invalid-pattern-reported-valid-compiled")
 		verifAssert(!ok || src == c15Pats[i], "expression-is-the-requested-one")
 		if ok {
 			r, _ := compileRegexp(c15Pats[i])
@@ -42,7 +45,7 @@ func HarnessC15Sequential() {
 // HarnessC15Concurrent: two goroutines, three calls in total (a lock-free reader must meet a map
 // that is already published while the other goroutine inserts), then a later sequential use.
 func HarnessC15Concurrent() {
-	i, j, k := verifChoose(4), verifChoose(4), verifChoose(4)
+	i, j, k := verifChoose(6), verifChoose(6), verifChoose(6)
 	var ok1 bool
 	var s1 string
 	verifGo(func() {
@@ -51,10 +54,10 @@ func HarnessC15Concurrent() {
 	ok2, s2 := c15Use(c15Pats[j])
 	ok3, s3 := c15Use(c15Pats[k])
 	verifJoin()
-	verifAssert(ok1 == (i != 3) && ok2 == (j != 3) && ok3 == (k != 3), "invalid-pattern-reported-valid-compiled")
+	verifAssert(ok1 == c15Valid[i] && ok2 == c15Valid[j] && ok3 == c15Valid[k], "invalid-pattern-reported-valid-compiled")
 	verifAssert((!ok1 || s1 == c15Pats[i]) && (!ok2 || s2 == c15Pats[j]) && (!ok3 || s3 == c15Pats[k]), "expression-is-the-requested-one")
 	ok4, s4 := c15Use(c15Pats[i])
-	verifAssert(ok4 == (i != 3) && (!ok4 || s4 == c15Pats[i]), "later-use-sees-the-requested-expression")
+	verifAssert(ok4 == c15Valid[i] && (!ok4 || s4 == c15Pats[i]), "later-use-sees-the-requested-expression")
 	verifReach("end")
 }
 
